@@ -98,6 +98,11 @@ bool buffer::copy(const buffer &from)
 	if (&from == this) {
 		return true;
 	}
+	/* elements with finalizer need copy operation */
+	const struct type_traits *traits = from._content_traits;
+	if (from._used && traits && traits->fini && !traits->init) {
+		return false;
+	}
 	if (mpt_buffer_set(this, from._content_traits, 0, &from + 1, from._used) < 0) {
 		return false;
 	}
